@@ -20,7 +20,7 @@ func init() {
 		Rule: "2-40 callers on one Workers with count sequences constant / increasing / decreasing-while-queued / alternating 1<->N / random, functions that return at once, sleep, or block on a gate (so the queue is provably non-empty when the target shrinks), Call and Wrap, concurrent Wait calls, seeded delays at workers.* hook sites; " +
 			"oracle: each function runs exactly once and its caller gets exactly its (result, error); running <= largest count requested so far (published before Call, read inside the function after incrementing running); every Call returns within the bound; " +
 			"a Wait never spans a function that ran for its whole duration; VerifState invariant queued>0 => count>0 sampled continuously; count=queued=0 and Count()==0 after the final Wait. " +
-			"non-trivial = at least two functions were running at once or the queue was non-empty when a smaller count arrived; distinct = distinct (mode, callers, max parallelism, shrink events) signatures",
+			"rejected-call: documented-to-panic calls (count<=0, nil function; Call and Wrap) recovered on a pool with executing and queued functions: no effect on the others. non-trivial = at least two functions were running at once or the queue was non-empty when a smaller count arrived; distinct = distinct (mode, callers, max parallelism, shrink events) signatures",
 		Assumptions: []string{
 			"'eventually executed' is restated as 'every Call returns within 10000 heartbeats once the gates are open'",
 		},
@@ -29,6 +29,7 @@ func init() {
 			{Name: "shrink-gated", N: core.TierN(300, 16000), Batch: 20, Run: c14Shrink},
 			{Name: "sustained-arrivals", N: core.TierN(12, 120), Batch: 4, Run: c14Sustained},
 			{Name: "micro-churn", N: core.TierN(64, 2560), Batch: 4, Run: c14Churn},
+			{Name: "rejected-call", N: core.TierN(60, 2400), Batch: 20, Run: c14Rejected},
 		},
 	})
 }
@@ -487,4 +488,91 @@ func c14Sustained(c *core.Ctx) {
 	c.Count("later_calls_completed_before_victim", int(ran))
 	c.Nontrivial()
 	c.Sig("sustained", count, feeders)
+}
+
+// c14Rejected: calls that the documentation says panic (count <= 0, nil function; Call and Wrap) are made, and
+// recovered, on a pool that is in use: gated functions are executing and further calls are queued. A rejected call
+// has no effect: everything made before and after it is executed exactly once and returns, Wait returns, Count is 0.
+func c14Rejected(c *core.Ctx) {
+	n := 1 + c.Rng.IntN(3)
+	before, after := 2+c.Rng.IntN(4), 1+c.Rng.IntN(4)
+	r := newC14Run(c, before+after)
+	gate := make(chan struct{})
+	var wg sync.WaitGroup
+	call := func(i int, body func()) {
+		wg.Add(1)
+		go func() {
+			defer wg.Done()
+			r.publish(n)
+			v, err := r.w.Call(n, r.fn(i, body))
+			r.check(i, v, err)
+		}()
+	}
+	for i := 0; i < before; i++ {
+		call(i, func() { <-gate })
+	}
+	core.WaitUntil(3000, func() bool { return int(r.running.Load()) == min(n, before) })
+	rejected := 0
+	for _, kind := range []string{"count-zero", "count-negative", "nil-function", "wrap-count-zero", "wrap-nil-function"} {
+		if c.Rng.IntN(2) == 0 && rejected > 0 {
+			continue
+		}
+		rejected++
+		var pv any
+		ret := core.AwaitDone(core.Go(func() {
+			pv = core.Recover(func() {
+				switch kind {
+				case "count-zero":
+					r.w.Call(0, func() (interface{}, error) { return nil, nil })
+				case "count-negative":
+					r.w.Call(-1-c.Rng.IntN(5), func() (interface{}, error) { return nil, nil })
+				case "nil-function":
+					r.w.Call(n, nil)
+				case "wrap-count-zero":
+					r.w.Wrap(0, func() (interface{}, error) { return nil, nil })
+				default:
+					r.w.Wrap(n, nil)
+				}
+			})
+		}), 3000)
+		if !ret {
+			c.Violate("rejected-call-blocked", "the invalid call (%s) neither panicked nor returned", kind)
+			c.SetDump(core.DumpAll())
+			close(gate)
+			return
+		}
+		if pv == nil {
+			c.Violate("invalid-accepted", "the invalid call (%s) did not panic", kind)
+		}
+	}
+	for i := 0; i < after; i++ {
+		call(before+i, nil)
+	}
+	time.Sleep(time.Duration(c.Rng.IntN(200)) * time.Microsecond)
+	close(gate)
+	desc := fmt.Sprintf("N=%d, %d gated calls, %d rejected calls, %d later calls", n, before, rejected, after)
+	if !core.AwaitDone(core.Go(wg.Wait), 10000) {
+		count, target, queued := r.w.VerifState()
+		c.Violate("call-starved", "valid calls made before/after a rejected (panicking, recovered) call never returned (count=%d target=%d queued=%d); %s", count, target, queued, desc)
+		c.SetDump(core.DumpAll())
+		return
+	}
+	if !core.AwaitDone(core.Go(r.w.Wait), 10000) {
+		c.Violate("wait-blocked", "Wait did not return after every call had returned; %s", desc)
+		c.SetDump(core.DumpAll())
+		return
+	}
+	if cnt := r.w.Count(); cnt != 0 {
+		c.Violate("count-after-wait", "Count()=%d after Wait; %s", cnt, desc)
+	}
+	for i := range r.execs {
+		if r.execs[i].Load() != 1 {
+			c.Violate("execution-count", "function %d executed %d times; %s", i, r.execs[i].Load(), desc)
+		}
+	}
+	r.finish(desc)
+	c.Op("call", before+after)
+	c.Op("rejected", rejected)
+	c.Nontrivial()
+	c.Sig("rejected", n, before, after, rejected)
 }
